@@ -1,19 +1,85 @@
 import OVM.IO.Ovmb.FramingLemmas
+import OVM.IO.Ovmb.SafetyLoop
+import OVM.IO.Driver
 /-
-  C07, OVMB half.  Subject: `decode` (lean/OVM/IO/Ovmb/Decode.lean), the model of `ovmb_read` with exactly the
-  range checks the C++ has; unchecked kernel accesses are the ghost error `.ub`.
+  C07, OVMB half.  Subject: `decode` / `decodeStream` (lean/OVM/IO/Ovmb/Decode.lean), the model of `ovmb_read`
+  with exactly the range checks the C++ has; unchecked kernel accesses (`vector::operator[]` in the topology
+  checks of `add_face` / `add_cell` and in the tet / hex overrides) are the ghost error `.ub`.  The model is tied
+  to the code by the differential run of tools/props/io_ovmb.py (same bytes to both, result class and mesh
+  compared, the model compiled from these very files).
 
-  Proved here: termination (the chunk loop is a well-founded recursion on `remaining_bytes()`, every payload
-  decoder is structural recursion on a count that is checked against the payload length first), every value the
-  reader takes out of a payload is bounded by its encoding.
-  NOT yet theorems (statements kept visible; evaluated by the judge on every mutant of the correspondence run):
-  `NoUB` (no unchecked out-of-range kernel access for any byte string) and `OkValid` (success ⇒ `WFMesh`).
+  Proved here, for every byte string, every stream (healthy, or failing early at any position) and every reader
+  configuration (mesh type poly / tet / hex, topology check on / off, any hex ordering step that only hands on
+  halffaces it was given — `HexOK`):
+    * `no_undefined_behaviour`  the reader never makes an unchecked out-of-range kernel access: every `getU` call
+                                site is reached only with an index that the reader's own range checks
+                                (`readHandles`, the vertex-range test of `read_edges`) put in range; the
+                                property directory only ever holds indices of existing storages
+    * `ok_implies_valid_mesh`   success ⇒ `WFMesh`: three 64-bit coordinates per vertex, every edge endpoint /
+                                halfedge / halfface stored designates an existing entity, every property has a
+                                registered codec, a default and one value per entity, all of its type
+    * `chunk_loop_measure` …    termination: the chunk loop is a well-founded recursion on `remaining_bytes()`
+                                (each `read_chunk` consumes at least a chunk header; Lean accepted `loop` as a
+                                total function by exactly this measure), every payload decoder is structural
+                                recursion on a count checked against the payload length first
+  Method (lean/OVM/IO/Ovmb/Safety*.lean): the invariant `RInv` of the reader state holds initially and is
+  preserved by every chunk kind; `Safe RInv` (not `.ub`, and `RInv` on success) composes along the `do` blocks;
+  the loop by functional induction; `finish` turns `RInv` into `WFMesh`.
+  `HexOK` is necessary (`hexOK_needed` below: a configuration violating it reaches `.ub` on a valid cube file);
+  it holds for the configuration of the correspondence run (`judge_cfg_hexOK`) and for the kernel model of the
+  hexahedral `add_cell` (`OVM.Kernel.hexReorder_subset`, Props/C16).
 -/
 namespace OVM.Props.C07
 open OVM.Ovmb OVM.Gen.Ovmb Dec
 
-def NoUB : Prop := ∀ (cfg : Cfg) (bytes : Bytes), decode cfg bytes ≠ .error .ub
-def OkValid : Prop := ∀ (cfg : Cfg) (bytes : Bytes) (F : File), decode cfg bytes = .ok F → WFMesh F = true
+/-- **C07 (a)**, any stream: reading never makes an unchecked out-of-range kernel access -/
+theorem no_undefined_behaviour_stream (cfg : Cfg) (hx : HexOK cfg) (st : Stream) :
+    decodeStream cfg st ≠ .error .ub :=
+  decodeStream_no_ub cfg hx st
+
+/-- **C07 (a)**: for every byte string, reading never makes an unchecked out-of-range kernel access -/
+theorem no_undefined_behaviour (cfg : Cfg) (hx : HexOK cfg) (bytes : Bytes) : decode cfg bytes ≠ .error .ub :=
+  decode_no_ub cfg hx bytes
+
+/-- **C07 (a)**, stream that fails from position `p` on -/
+theorem no_undefined_behaviour_faulty (cfg : Cfg) (hx : HexOK cfg) (bytes : Bytes) (p : Nat) :
+    decodeFaulty cfg bytes p ≠ .error .ub :=
+  decodeFaulty_no_ub cfg hx bytes p
+
+/-- **C07 (c)**, any stream: success ⇒ valid mesh -/
+theorem ok_implies_valid_mesh_stream (cfg : Cfg) (hx : HexOK cfg) (st : Stream) (F : File)
+    (h : decodeStream cfg st = .ok F) : WFMesh F = true :=
+  decodeStream_ok_wf cfg hx st F h
+
+/-- **C07 (c)**: for every byte string, success ⇒ every stored handle designates an existing entity and every
+    property has one element (of its type) per entity -/
+theorem ok_implies_valid_mesh (cfg : Cfg) (hx : HexOK cfg) (bytes : Bytes) (F : File)
+    (h : decode cfg bytes = .ok F) : WFMesh F = true :=
+  decode_ok_wf cfg hx bytes F h
+
+/-- **C07 (c)**, stream that fails from position `p` on -/
+theorem ok_implies_valid_mesh_faulty (cfg : Cfg) (hx : HexOK cfg) (bytes : Bytes) (p : Nat) (F : File)
+    (h : decodeFaulty cfg bytes p = .ok F) : WFMesh F = true :=
+  decodeFaulty_ok_wf cfg hx bytes p F h
+
+/-- the reader state invariant behind both: it holds between any two chunks -/
+theorem chunk_preserves_invariant (cfg : Cfg) (hx : HexOK cfg) (s s' : RState) (st st' : Stream) (hi : RInv s)
+    (h : readChunk cfg s st = .ok (s', st')) : RInv s' :=
+  (readChunk_safe cfg hx hi st).of_ok h
+
+/-- the kernel call itself: `add_face` (any mesh type, check on or off) with halfedges below `2 * n_edges` makes
+    no out-of-range access — what the reader's per-list range test buys, wherever in a chunk the call happens -/
+theorem add_face_in_range_safe (cfg : Cfg) (edges : List (Nat × Nat)) (hes : List Nat)
+    (h : ∀ x ∈ hes, x < 2 * edges.length) : ∃ b, addFace cfg edges hes = .ok b :=
+  addFace_ok cfg h
+
+/-- `add_cell` (any mesh type) with halffaces below `2 * n_faces` makes no out-of-range access, and the list it
+    stores (possibly re-ordered by the hexahedral kernel) is again below `2 * n_faces` -/
+theorem add_cell_in_range_safe (cfg : Cfg) (hx : HexOK cfg) (faces : List (List Nat)) (hfs : List Nat)
+    (h : ∀ x ∈ hfs, x < 2 * faces.length) :
+    addCell cfg faces hfs ≠ .error .ub ∧
+      ∀ l, addCell cfg faces hfs = .ok (some l) → ∀ x ∈ l, x < 2 * faces.length :=
+  ⟨(addCell_safe cfg hx h).not_ub, fun l hl => (addCell_safe cfg hx h).of_ok hl l rfl⟩
 
 /-- the chunk loop terminates: each successful `read_chunk` strictly decreases `remaining_bytes()` by at least
     the size of a chunk header (Lean accepted `loop` as a total function by exactly this measure) -/
@@ -33,6 +99,74 @@ theorem short_int_rejected {k : Nat} {s : Bytes} (h : s.length < k) : uN k s = .
 /-- `n` values decoded ⇒ exactly `n` values, each of the codec's type -/
 theorem decoded_values_valid {c : Codec} {n : Nat} {s r : Bytes} {vals : List Bytes}
     (h : decodeN c n s = .ok (vals, r)) : vals.length = n ∧ ∀ v ∈ vals, validVal c v = true := decodeN_ok h
+
+/-! ### the hypothesis `HexOK`: satisfiable, satisfied by the judge's configuration, and necessary -/
+
+/-- a concrete configuration whose ordering step does re-order (it hands back the list it was given) -/
+def cfgOf (k : MeshKind) (chk : Bool) : Cfg := ⟨k, chk, fun _ hfs => .reordered hfs⟩
+
+theorem cfgOf_hexOK (k : MeshKind) (chk : Bool) : HexOK (cfgOf k chk) := by
+  intro faces hfs l _ _ h
+  simp only [cfgOf, HexRes.reordered.injEq] at h
+  rw [← h]; exact fun x hx => hx
+
+/-- the configuration the compiled judge compares with the C++ (`OVM.Ovmb.Judge.mkCfg`: the concrete
+    `check_halfface_ordering`, `.unmodelled` when it fails) satisfies the hypothesis -/
+theorem judge_cfg_hexOK (k : MeshKind) (chk : Bool) : HexOK (Judge.mkCfg k chk) := by
+  intro faces hfs l _ _ h
+  simp only [Judge.mkCfg, Judge.hexOrderStd] at h
+  split at h <;> cases h
+
+/-- so for the judge's configuration both statements hold without hypothesis -/
+theorem judge_no_undefined_behaviour (k : MeshKind) (chk : Bool) (bytes : Bytes) :
+    decode (Judge.mkCfg k chk) bytes ≠ .error .ub :=
+  no_undefined_behaviour _ (judge_cfg_hexOK k chk) bytes
+
+theorem judge_ok_implies_valid_mesh (k : MeshKind) (chk : Bool) (bytes : Bytes) (F : File)
+    (h : decode (Judge.mkCfg k chk) bytes = .ok F) : WFMesh F = true :=
+  ok_implies_valid_mesh _ (judge_cfg_hexOK k chk) bytes F h
+
+def okOf (r : R File) : Option File := match r with | .ok F => some F | .error _ => none
+def errOf (r : R File) : Option RErr := match r with | .ok _ => none | .error e => some e
+
+def i32 : Codec := ⟨[105, 51, 50], .fixed, 4⟩
+
+/-- the unit cube as one hexahedron, with an `int` vertex property -/
+def cubeF : File :=
+  { topo := topoTypeHexahedral,
+    pos := [[0,0,0],[1,0,0],[1,1,0],[0,1,0],[0,0,1],[1,0,1],[1,1,1],[0,1,1]].map
+             (fun p => p.map (fun x => x * 4607182418800017408)),
+    edges := [(0,1),(1,2),(2,3),(3,0),(4,5),(5,6),(6,7),(7,4),(0,4),(1,5),(2,6),(3,7)],
+    faces := [[0,2,4,6],[8,10,12,14],[0,18,9,17],[2,20,11,19],[4,22,13,21],[6,16,15,23]],
+    cells := [[1,2,10,6,8,4]],
+    props := [⟨propertyEntityVertex, [119], i32, [0,0,0,0],
+               [[1,0,0,0],[2,0,0,0],[3,0,0,0],[4,0,0,0],[5,0,0,0],[6,0,0,0],[7,0,0,0],[8,0,0,0]]⟩] }
+
+set_option maxRecDepth 100000
+
+/- non-vacuity of `ok_implies_valid_mesh`: the 568 bytes the writer model emits for the cube are read
+   successfully into a hexahedral, a polyhedral mesh (topology check on) … -/
+example : okOf (decode (cfgOf .hex true) (encode cubeF)) = some cubeF
+    ∧ okOf (decode (cfgOf .poly true) (encode cubeF)) = some cubeF
+    ∧ okOf (decode (Judge.mkCfg .hex true) (encode cubeF)) = some cubeF
+    ∧ WFMesh cubeF = true :=
+  ⟨by decide +kernel, by decide +kernel, by decide +kernel, by decide +kernel⟩
+
+/- … and through a stream that fails before the end the result is an error other than `.ub`
+   (non-vacuity of `no_undefined_behaviour_faulty`; 420 = inside the face chunk) -/
+example : errOf (decodeFaulty (cfgOf .hex true) (encode cubeF) 420) = some (.res .invalidFile) := by decide +kernel
+
+/- the range checks the proof rests on are exercised: a halfface handle one past the end in the cell chunk
+   (byte 481: `2` → `12 = 2 * n_faces`) is refused by the reader, not handed to `add_cell` -/
+example : errOf (decode (cfgOf .hex true) ((encode cubeF).set 481 12)) = some (.res .invalidFile)
+    ∧ ((encode cubeF).drop 480).take 6 = [1, 2, 10, 6, 8, 4] :=
+  ⟨by decide +kernel, by decide +kernel⟩
+
+/-- `HexOK` cannot be dropped: an ordering step that invents a halfface (what the hexahedral `add_cell` did
+    before b95631b, finding C16-F14) drives the same valid file into an unchecked out-of-range access -/
+theorem hexOK_needed :
+    errOf (decode ⟨.hex, true, fun _ _ => .reordered [99, 2, 10, 6, 8, 4]⟩ (encode cubeF)) = some .ub := by
+  decide +kernel
 
 example : decode ⟨.poly, true, fun _ _ => .asIs⟩ [] = .error (.res .incompatible) :=
   short_header_rejected _ _ (by decide)
